@@ -400,6 +400,12 @@ func runConc(sc *Scenario, st *SiteTable, raceLog *raceLogReader) *Outcome {
 				// confirm against a fresh value used for this one call only
 				fresh, _ := compile(sc.Pattern, sc.Knobs)
 				fr := execOp(fresh, &sc.Workers[w][i], hb, hs)
+				if got[w][i] == fr && concDivergence(sc, &sc.Workers[w][i], hb, hs, want[w][i]) {
+					// the (sequentially aged) reference value answered like a fresh value under
+					// another configuration: pure engine divergence, nobody's state is corrupted
+					out.Diverged++
+					continue
+				}
 				if got[w][i] == fr {
 					// the reference value drifted, not the concurrent one: history dependence
 					if prefilterMissesMatch(sc.Pattern, sc.Knobs, hb[sc.Workers[w][i].H]) {
